@@ -37,6 +37,12 @@ type Disk struct {
 	Dirs     []string          `json:"dirs"`
 	Files    map[string]*SFile `json:"files"`
 	Capacity int64             `json:"capacity,omitempty"`
+	// Links (real-directory runs only): path -> symlink target, e.g. an output path pointing at /dev/full, which
+	// is how a real directory shows "the disk is full" for one file. The simulated disk ignores them.
+	Links map[string]string `json:"links,omitempty"`
+	// OutputsOlder (real-directory runs only): pre-existing outputs (gen_*.go, README.md) get a modification time
+	// before the sources instead of after them (the default: what an earlier run leaves behind).
+	OutputsOlder bool `json:"outputs_older,omitempty"`
 }
 
 type EnumSched struct {
@@ -118,7 +124,13 @@ func (d *Disk) Get(path string) ([]byte, bool) {
 }
 
 func (d *Disk) Clone() Disk {
-	n := Disk{Capacity: d.Capacity, Dirs: append([]string{}, d.Dirs...), Files: map[string]*SFile{}}
+	n := Disk{Capacity: d.Capacity, Dirs: append([]string{}, d.Dirs...), Files: map[string]*SFile{}, OutputsOlder: d.OutputsOlder}
+	if len(d.Links) > 0 {
+		n.Links = map[string]string{}
+		for k, v := range d.Links {
+			n.Links[k] = v
+		}
+	}
 	for k, v := range d.Files {
 		c := *v
 		c.Damage = append([]Damage{}, v.Damage...)
@@ -403,12 +415,33 @@ func RunReal(binary string, sc *Scenario, workDir string) *RealResult {
 	for _, d := range sc.Disk.Dirs {
 		os.MkdirAll(filepath.Join(dir, d), 0755)
 	}
-	for p := range sc.Disk.Files {
+	// modification times are part of the scenario, not of the order the harness happens to write files in: sources
+	// one hour in the past, pre-existing outputs one hour in the future (newer than the sources and than the
+	// binary, as after an earlier run) unless the scenario says older
+	t0 := time.Now().Add(-time.Hour)
+	for _, p := range sortedKeys(sc.Disk.Files) {
 		b, _ := sc.Disk.Get(p)
 		full := filepath.Join(dir, p)
 		os.MkdirAll(filepath.Dir(full), 0755)
 		if err := os.WriteFile(full, b, 0644); err != nil {
 			harnessFail("materialise %s: %v", p, err)
+		}
+		mt := t0
+		base := filepath.Base(p)
+		if (strings.HasPrefix(base, "gen_") && strings.HasSuffix(base, ".go")) || base == "README.md" {
+			mt = t0.Add(2 * time.Hour)
+			if sc.Disk.OutputsOlder {
+				mt = t0.Add(-2 * time.Hour)
+			}
+		}
+		os.Chtimes(full, mt, mt)
+	}
+	for _, p := range sortedKeys(sc.Disk.Links) {
+		full := filepath.Join(dir, p)
+		os.MkdirAll(filepath.Dir(full), 0755)
+		os.Remove(full)
+		if err := os.Symlink(sc.Disk.Links[p], full); err != nil {
+			harnessFail("materialise link %s: %v", p, err)
 		}
 	}
 	ctx, cancel := context.WithTimeout(context.Background(), watchdog)
@@ -438,7 +471,7 @@ func RunReal(binary string, sc *Scenario, workDir string) *RealResult {
 		}
 	}
 	filepath.Walk(dir, func(p string, info os.FileInfo, err error) error {
-		if err != nil || info.IsDir() {
+		if err != nil || info.IsDir() || info.Mode()&os.ModeSymlink != 0 {
 			return nil
 		}
 		rel, _ := filepath.Rel(dir, p)
